@@ -15,7 +15,11 @@ Open Scope N_scope.
    stored   : the value found in the compiled graph / config (config integers and booleans printed
               back with FormatInt / FormatBool) *)
 Inductive case :=
-  Case (c : ctx) (k : kw) (v : list N) (isgrad gradok accepted : bool) (errpos : N) (stored : option (list N)).
+  Case (c : ctx) (k : kw) (v : list N) (isgrad gradok accepted : bool) (errpos : N) (stored : option (list N))
+  (* `x.near: V` on the only object of a diagram; parsed = path elements d2parser.ParseKey + d2graph.Key
+     return for V (the oracle), stored = path elements of the compiled object's NearKey *)
+| CaseNear (v : list N) (parsed : option (list (list N))) (accepted : bool) (errpos : N)
+           (stored : option (list (list N))).
 
 Definition is_config_int (k : kw) : bool := match k with KThemeID | KDarkThemeID | KPad => true | _ => false end.
 Definition is_config_bool (k : kw) : bool := match k with KSketch | KCenter => true | _ => false end.
@@ -46,8 +50,24 @@ Definition unchanged_up_to_case (k : kw) (v : list N) (st : option (list N)) : b
       else bytes_eqb v s || (keyword_valued k && bytes_eqb (go_lower v) (go_lower s))
   end.
 
+Definition path_eqb := list_eqb bytes_eqb.
+
 Definition check_case (x : case) : list N :=
   match x with
+  | CaseNear v parsed accepted errpos st =>
+      let pk := fun _ : list N => parsed in
+      let m := near_accepts pk v in
+      let d := doc_near_key_b parsed in
+      flag (Bool.eqb m accepted) 1
+      ++ flag (if accepted then errpos =? 0 else errpos =? 1) 1
+      ++ flag (if accepted then opt_eqb path_eqb (near_stored pk v) st else true) 1
+      (* 2: oracle hypothesis H_ident of the near theorems *)
+      ++ flag (implb (ident_word v) (opt_eqb path_eqb parsed (Some [v]))) 2
+      ++ flag (implb accepted d) 10
+      ++ flag (implb d accepted) 11
+      (* the stored key is the key the value denotes *)
+      ++ flag (if accepted then opt_eqb path_eqb parsed st && nonempty (match st with Some p => p | None => [] end) else true) 12
+      ++ flag (if accepted then true else (errpos =? 1) || (errpos =? 2)) 13
   | Case c k v isgrad gradok accepted errpos st =>
       let g := fun _ : list N => gradok in
       let m := accepts g c k v in
